@@ -22,6 +22,10 @@ bool QXmppArchiveManager::handleStanza(const QDomElement &element)
     if (element.tagName() != u"iq") {
         return false;
     }
+    // requests are not handled by this manager: leave them to the client's fallback (error reply)
+    if (const auto type = element.attribute(QStringLiteral("type")); type == u"get" || type == u"set") {
+        return false;
+    }
 
     // XEP-0136: Message Archiving
     if (QXmppArchiveChatIq::isArchiveChatIq(element)) {
